@@ -271,6 +271,20 @@ func (db *DB) replayAndSetupWriteAheadLog() error {
 		log.Printf("done replaying WAL in %v with %d records\n", elapsedDuration, numRecords)
 	}
 
+	// The WAL files must be removed oldest first. If this is interrupted by a crash, the newer files that remain are replayed
+	// again by the next Open, which is harmless. An older file that outlives a newer one would replay stale mutations over
+	// the table that was just flushed. os.RemoveAll deletes in directory order, os.ReadDir returns the entries sorted by name.
+	walEntries, err := os.ReadDir(walBasePath)
+	if err != nil {
+		return err
+	}
+	for _, walEntry := range walEntries {
+		err = os.RemoveAll(filepath.Join(walBasePath, walEntry.Name()))
+		if err != nil {
+			return err
+		}
+	}
+
 	err = os.RemoveAll(walBasePath)
 	if err != nil {
 		return err
